@@ -141,17 +141,24 @@ def linear_matrix_action(linear_map, n, **kwargs):
         kwargs["like"] = linear_map
 
     base_ring, dtype = utils.check_type(**kwargs)
-    map_matrix = utils.zeros((n*n, n*n), base_ring, dtype)
+    map_matrix = None
 
     for i in range(n):
         for j in range(n):
-            bm = basis_matrix(i, j, n, like=map_matrix)
+            bm = basis_matrix(i, j, n, base_ring=base_ring, dtype=dtype)
 
             b_image = linear_map(bm)
 
-            map_matrix[:, i*n + j] = gln_lie_algebra_coords(
+            coords = gln_lie_algebra_coords(
                 b_image, autoconvert=False
             )
+
+            # the linear map may be an array of linear maps
+            if map_matrix is None:
+                map_matrix = utils.zeros(coords.shape[:-1] + (n*n, n*n),
+                                         base_ring, dtype)
+
+            map_matrix[..., i*n + j] = coords
 
     return map_matrix
 
@@ -160,20 +167,27 @@ def sln_linear_action(linear_map, n, **kwargs):
         kwargs["like"] = linear_map
 
     base_ring, dtype = utils.check_type(**kwargs)
-    map_matrix = utils.zeros((n**2 - 1, n**2 - 1), base_ring, dtype)
+    map_matrix = None
 
     for i in range(n):
         for j in range(n):
             if i == n - 1 and j == n - 1:
                 break
 
-            bm = sln_basis_matrix(i, j, n, like=map_matrix)
+            bm = sln_basis_matrix(i, j, n, base_ring=base_ring, dtype=dtype)
 
             b_image = linear_map(bm)
 
-            map_matrix[:, i*n + j] = sln_lie_algebra_coords(
+            coords = sln_lie_algebra_coords(
                 b_image, autoconvert=False
             )
+
+            # the linear map may be an array of linear maps
+            if map_matrix is None:
+                map_matrix = utils.zeros(coords.shape[:-1] + (n**2 - 1, n**2 - 1),
+                                         base_ring, dtype)
+
+            map_matrix[..., i*n + j] = coords
 
     return map_matrix
 
